@@ -136,7 +136,7 @@ def random_config(rng, closed=True):
     # descriptor families
     fams = []
     for _ in range(rng.randint(1, 3)):
-        o = rng.choice([1, 1, 1, 2])
+        o = rng.choice([1, 1, 1, 2]) if not fams else rng.choice([1, 1, 1, 2, 0])      # (order 0: '.[$]', a counter-ion style attachment)
         if rng.random() < 0.5:
             lab = rng.choice(['', '', 'A', 'B', 'A2', 'b1'])
             fams.append([('$', lab, o), ('$', rng.choice(['', lab, 'C', 'C6']), o)])
@@ -261,6 +261,11 @@ def random_config(rng, closed=True):
         vals = sorted(masses.values())
         cfg['exact_target'] = float(sum(rng.choice(vals) for _ in range(cfg['target_units']))) if rng.random() < 0.9 else 0.0
         feats.add('exact_target')
+        if cfg['exact_target'] > 0 and rng.random() < 0.3:
+            # ... or missed by a hair: the target lies 1/1024 ABOVE a reachable sum (both exact floats), so the chain that
+            # stops at that sum is still below its target and one more fragment is due
+            cfg['exact_target'] += 1.0 / 1024
+            feats.add('target_just_above_a_reachable_sum')
     if terminal:
         feats.add('terminals')
         if rng.random() < 0.3:
